@@ -1,0 +1,17 @@
+//go:build !verif
+
+package erpc
+
+import "net"
+
+// Verification hooks (build tag verif). With the tag off these are empty and inlined away.
+
+func verifGate(point string, s *session) {}
+
+func verifEnter() {}
+
+func verifEvent(kind string, s *session, a, b int64) {}
+
+func verifLeave() {}
+
+func verifDial(network, addr string) (net.Conn, error, bool) { return nil, nil, false }
